@@ -436,14 +436,40 @@ func checkShipCloseOnce(p *core.Program, r *core.Report, R1, R2 string) bool {
 		r.Unresolved(R1, "function literal passed to shutdownOnce.Do")
 		return false
 	}
-	inBody := func(fn *ssa.Function) bool {
-		for _, b := range bodies {
-			if core.NestedIn(fn, b) {
+	// the guarded close path: the once bodies plus the unexported functions that are called from nowhere else
+	// (the body of the once may be a named method the literal only forwards to)
+	ensureCallSites(p)
+	guarded := map[*ssa.Function]bool{}
+	for _, b := range bodies {
+		guarded[b] = true
+	}
+	inGuarded := func(fn *ssa.Function) bool {
+		for g := range guarded {
+			if core.NestedIn(fn, g) {
 				return true
 			}
 		}
 		return false
 	}
+	for changed := true; changed; {
+		changed = false
+		for _, fn := range shipFns {
+			if guarded[fn] || fn.Parent() != nil || fn.Object() == nil || fn.Object().Exported() || len(gCallSites[fn]) == 0 {
+				continue
+			}
+			all := true
+			for _, cs := range gCallSites[fn] {
+				if _, isGo := cs.(*ssa.Go); isGo || !inGuarded(cs.Parent()) {
+					all = false
+				}
+			}
+			if all {
+				guarded[fn] = true
+				changed = true
+			}
+		}
+	}
+	inBody := inGuarded
 	for _, s := range core.Sites(shipFns, func(in ssa.Instruction) bool {
 		return core.IsInvokeOf(in, mClosed) || core.IsInvokeOf(in, mCloseData)
 	}) {
@@ -461,7 +487,9 @@ func checkShipCloseOnce(p *core.Program, r *core.Report, R1, R2 string) bool {
 	r.Floor(R1, 2)
 
 	// R2
+	depthGuard := map[*ssa.Function]int{}
 	for _, b := range bodies {
+		b := b
 		isRep := func(in ssa.Instruction) bool { return core.IsInvokeOf(in, mClosed) }
 		isClose := func(in ssa.Instruction) bool { return core.IsInvokeOf(in, mCloseData) }
 		weightOf := func(pred func(ssa.Instruction) bool) func(ssa.Instruction) int {
@@ -477,6 +505,17 @@ func checkShipCloseOnce(p *core.Program, r *core.Report, R1, R2 string) bool {
 							return mn
 						}
 						return 1000 // not exactly-k: poison
+					}
+				}
+				if c, ok := in.(*ssa.Call); ok {
+					if t := c.Call.StaticCallee(); t != nil && guarded[t] && t != b && depthGuard[t] == 0 {
+						depthGuard[t]++
+						mn, mx, ok := pathCount(t, w)
+						depthGuard[t]--
+						if ok && mn == mx {
+							return mn
+						}
+						return 1000
 					}
 				}
 				return 0
